@@ -379,8 +379,14 @@ def binop(op, a, b, symr, t=None):
         return TOP
     if op == '%' and b[0] == 'c' and b[1] > 0:
         pa = lin_parts(a)
-        if pa is not None and ra is not None and ra[0] >= 0 and all(c % b[1] == 0 for c in pa[1].values()):
-            return C(pa[0] % b[1])
+        if pa is not None and ra is not None and ra[0] >= 0:
+            k = b[1]
+            lo_part = L(pa[0] % k, {s: c for s, c in pa[1].items() if c % k != 0})
+            rl = rng(lo_part, symr)
+            if rl is not None and 0 <= rl[0] and rl[1] < k:
+                return lo_part
+            if all(c % k == 0 for c in pa[1].values()):
+                return C(pa[0] % k)
         if ra is not None and ra[0] >= 0:
             if ra[1] < b[1]:
                 return a
@@ -389,6 +395,13 @@ def binop(op, a, b, symr, t=None):
     if op == '%' and rb is not None and rb[0] > 0 and ra is not None and ra[0] >= 0:
         return R(0, min(ra[1], rb[1] - 1))
     if op == '/' and b[0] == 'c' and b[1] > 0:
+        pa = lin_parts(a)
+        if pa is not None and ra is not None and ra[0] >= 0:
+            k = b[1]
+            lo_part = L(pa[0] % k, {s: c for s, c in pa[1].items() if c % k != 0})
+            rl = rng(lo_part, symr)
+            if rl is not None and 0 <= rl[0] and rl[1] < k:
+                return L(pa[0] // k, {s: c // k for s, c in pa[1].items() if c % k == 0})
         if ra is not None and ra[0] >= 0:
             return R(ra[0] // b[1], ra[1] // b[1])
         return TOP
